@@ -22,14 +22,15 @@ type M struct {
 	Epoch   uint32 // pool-change epoch (link joins + link drops so far) seen by the sender just before Send
 	SleepUS uint32 // the decoder sleeps that long
 	Pad     uint32 // extra payload bytes
+	Kind    uint32 // operation that carried the message (low nibble: op kind, next nibble: addressing mode)
 }
 
-const mHdr = 36
+const mHdr = 40
 
 var (
 	decodeActive atomic.Int64 // decoders currently inside UnmarshalEDF
 	decodeStalls atomic.Int64 // decodes that slept
-	zeroPad      = make([]byte, 1<<16)
+	zeroPad      = make([]byte, 1<<17)
 )
 
 func (m M) MarshalEDF(w io.Writer) error {
@@ -42,6 +43,7 @@ func (m M) MarshalEDF(w io.Writer) error {
 	binary.BigEndian.PutUint32(b[24:], m.Epoch)
 	binary.BigEndian.PutUint32(b[28:], m.SleepUS)
 	binary.BigEndian.PutUint32(b[32:], m.Pad)
+	binary.BigEndian.PutUint32(b[36:], m.Kind)
 	if _, err := w.Write(b[:]); err != nil {
 		return err
 	}
@@ -70,6 +72,7 @@ func (m *M) UnmarshalEDF(b []byte) error {
 	m.Epoch = binary.BigEndian.Uint32(b[24:])
 	m.SleepUS = binary.BigEndian.Uint32(b[28:])
 	m.Pad = binary.BigEndian.Uint32(b[32:])
+	m.Kind = binary.BigEndian.Uint32(b[36:])
 	if int(m.Pad) != len(b)-mHdr {
 		return errors.New("c13 payload: pad length mismatch")
 	}
